@@ -93,7 +93,7 @@ def run_profile(exe, owner, profile, seed, total):
                         continue
                 elif owner == "C09":
                     bad = v["what"]
-            if bad is None and not r["aborted"] and int(r["hash"]) != ref.hashes.get(idx):
+            if bad is None and not r["aborted"] and idx in ref.hashes and int(r["hash"]) != ref.hashes[idx]:
                 if owner in ("C06", "C07", "C08", "C09"):
                     bad = ("result log of %s family %d differs between wasm32+simd128 and native x86_64 (whose every "
                            "operation agreed with the reference model)" % (profile, idx))
